@@ -644,6 +644,10 @@ fn group_text(group: &[Ev]) -> String {
 /// Run the deterministic continuation from a state that only a concurrent execution reaches.
 fn continue_sequentially(sim: &mut Sim, out: &mut Vec<Viol>, drains: &mut u64, probes: &mut u64) {
     *drains += 1;
+    // the continuation uses the un-abbreviated alphabet: with the macro step, connection-ready and hand-back
+    // steps are not events of their own, and a connection whose request was cancelled in flight would look
+    // quiescent while its hand-back task is still waiting to run
+    sim.cfg.macro_finish = false;
     sim.draining = true;
     let mut ok = false;
     for _ in 0..300 {
